@@ -484,6 +484,15 @@ func (eng *Engine) genOverlay(p *packages.Package, cf *ContractFile, fset *token
 				when := "before"
 				if !a.Before {
 					when = "after"
+					// names declared by the statement holding the call (n, err := f(...)) are in scope after it
+					ast.Inspect(fi.decl.Body, func(n ast.Node) bool {
+						if as, ok := n.(*ast.AssignStmt); ok && as.Tok == token.DEFINE && as.Pos() <= calls[a.Ordinal-1].Pos() && calls[a.Ordinal-1].End() <= as.End() {
+							if _, inFor := enclosingHeader(fi.decl.Body, as); !inFor {
+								pos = as.End()
+							}
+						}
+						return true
+					})
 				}
 				if err := emit(&a.Clause, fmt.Sprintf("assert_%s_%d_%s", when, a.Ordinal, sanitizeIdent(a.Callee)), false, pos); err != nil {
 					return nil, err
@@ -936,6 +945,29 @@ func (eng *Engine) posString(pos token.Pos) string {
 }
 
 // callOrdinal: ordinal of the call among calls of the same callee in source order.
+// enclosingHeader reports whether stmt is the init statement of an if/for/switch (its names are scoped to that statement).
+func enclosingHeader(body *ast.BlockStmt, stmt ast.Stmt) (ast.Node, bool) {
+	var found ast.Node
+	ast.Inspect(body, func(n ast.Node) bool {
+		switch x := n.(type) {
+		case *ast.IfStmt:
+			if x.Init == stmt {
+				found = x
+			}
+		case *ast.ForStmt:
+			if x.Init == stmt {
+				found = x
+			}
+		case *ast.SwitchStmt:
+			if x.Init == stmt {
+				found = x
+			}
+		}
+		return found == nil
+	})
+	return found, found != nil
+}
+
 func (eng *Engine) callOrdinal(fn *ssa.Function, ins ssa.Instruction) int {
 	m, ok := eng.callOrd[fn]
 	if !ok {
@@ -1462,6 +1494,15 @@ func (eng *Engine) callWrites(ms *modSet, ne *Exec, fn *ssa.Function, cc *ssa.Ca
 		}
 		return
 	}
+	if name == "(*sync.Cond).Wait" {
+		// interference while waiting: confined to the waiting function's own modifies clause, else everything
+		if sp := eng.specFor(fn); sp != nil && sp.HasModifies && len(sp.ModPkgs) == 0 {
+			callee = fn
+		} else {
+			ms.all = true
+			return
+		}
+	}
 	if eng.isModelled(name) || eng.isPureExternal(name) || eng.isNoop(name) {
 		if strings.Contains(name, "littleEndian).PutUint") || strings.Contains(name, "littleEndian).AppendUint") {
 			n, srt := ne.memArr(types.Typ[types.Uint8])
@@ -1567,8 +1608,12 @@ func (eng *Engine) loopMods(fn *ssa.Function, li *loopInfo, esc map[*ssa.Alloc]b
 				}
 				if refs := a.Referrers(); refs != nil {
 					for _, r := range *refs {
-						switch r.(type) {
-						case *ssa.MakeClosure, *ssa.Call, *ssa.Defer:
+						switch rx := r.(type) {
+						case *ssa.MakeClosure:
+							if closureMayWrite(rx, a, 0) {
+								ms.cells[a] = true
+							}
+						case *ssa.Call, *ssa.Defer:
 							ms.cells[a] = true
 						case *ssa.FieldAddr, *ssa.IndexAddr:
 							if rr := r.(ssa.Value).Referrers(); rr != nil {
@@ -1586,6 +1631,43 @@ func (eng *Engine) loopMods(fn *ssa.Function, li *loopInfo, esc map[*ssa.Alloc]b
 		}
 	}
 	return ms
+}
+
+// closureMayWrite: the closure stores to (or passes on) the captured variable v.
+func closureMayWrite(mc *ssa.MakeClosure, v ssa.Value, depth int) bool {
+	fn, ok := mc.Fn.(*ssa.Function)
+	if !ok || depth > 4 {
+		return true
+	}
+	for i, b := range mc.Bindings {
+		if b != v || i >= len(fn.FreeVars) {
+			continue
+		}
+		fv := fn.FreeVars[i]
+		refs := fv.Referrers()
+		if refs == nil {
+			continue
+		}
+		for _, r := range *refs {
+			switch x := r.(type) {
+			case *ssa.UnOp:
+				// load
+			case *ssa.DebugRef:
+			case *ssa.Store:
+				if x.Addr == ssa.Value(fv) {
+					return true
+				}
+				return true // address stored somewhere
+			case *ssa.MakeClosure:
+				if closureMayWrite(x, fv, depth+1) {
+					return true
+				}
+			default:
+				return true
+			}
+		}
+	}
+	return false
 }
 
 // globalNonNil: an interface-typed package-level variable whose only initialisation in the package's init is a
